@@ -66,4 +66,12 @@ theorem reshaping_signatures :
     DataFrame_update_signature = ["self", "other"] :=
   ⟨rfl, rfl, rfl, rfl, rfl⟩
 
+/-! ### evaluation order -/
+
+/-- `update` yields the receiver's kept columns before it reconciles `other`'s; `cbind` records a name as found before the
+    column is reconciled and copied. -/
+theorem bind_call_order :
+    DataFrame_update_call_order = ["self.items", "column.copy", "other.items", "self._reconcile_column", "column.copy"] ∧
+    DataFrame_cbind_call_order = ["set", "list", "enumerate", "data.items", "found_colnames.add", "self._reconcile_column", "column.copy"] := ⟨rfl, rfl⟩
+
 end DI.Tie.C09
